@@ -95,15 +95,52 @@ def _flat_add(e):
     return [e]
 
 
-def _slash_headed(x: ast.AST):
-    """Scheme pass: a concatenation whose first part is a literal starting with "/" is a path on this host
-    as far as the scheme is concerned (whether it is protocol-relative is the other pass's business)."""
+def _head_of(fi, x: ast.AST, depth: int = 4):
+    """The expression that supplies the first characters of the string ``x`` builds, looking through the usual
+    ways of building a string: ``a + b``, ``"fmt" % args``, f-strings, ``sep.join([..])`` (also of a local list that
+    starts as a literal and is only appended to).  Returns a Constant (literal prefix) or the leading operand."""
+    if depth <= 0:
+        return x
     if isinstance(x, ast.BinOp) and isinstance(x.op, ast.Add):
-        parts = _flat_add(x)
-        h = parts[0]
-        if isinstance(h, ast.Constant) and isinstance(h.value, str) and h.value.startswith("/"):
-            return False
-    return None
+        return _head_of(fi, _flat_add(x)[0], depth - 1)
+    if isinstance(x, ast.BinOp) and isinstance(x.op, ast.Mod) and isinstance(x.left, ast.Constant) and isinstance(x.left.value, str):
+        fmt = x.left.value
+        i = fmt.find("%")
+        if i != 0:
+            return ast.Constant(value=fmt if i < 0 else fmt[:i])
+        if fmt.startswith("%%"):
+            return ast.Constant(value="%")
+        args = x.right.elts if isinstance(x.right, ast.Tuple) else [x.right]
+        return _head_of(fi, args[0], depth - 1) if args else x
+    if isinstance(x, ast.JoinedStr) and x.values:
+        v0 = x.values[0]
+        return v0 if isinstance(v0, ast.Constant) else _head_of(fi, v0.value, depth - 1)
+    if isinstance(x, ast.Call) and isinstance(x.func, ast.Attribute) and x.func.attr == "join" and isinstance(x.func.value, ast.Constant) and len(x.args) == 1:
+        seq = x.args[0]
+        if isinstance(seq, ast.Name):
+            # a local list: its first binding must be a list literal and every other change an append at the end
+            binds = [st for st in q.walk_body(fi.node) if isinstance(st, (ast.Assign, ast.AnnAssign, ast.AugAssign)) and seq.id in q.assigned_paths(st)]
+            first = binds[0] if binds else None
+            tail_only = all(isinstance(st, ast.AugAssign) and isinstance(st.op, ast.Add) for st in binds[1:])
+            inserts = [c for c in q.calls(fi.node) if isinstance(c.func, ast.Attribute) and q.dotted(c.func.value) == seq.id and c.func.attr in ("insert", "reverse", "sort", "pop", "remove", "clear")]
+            if first is not None and not isinstance(first, ast.AugAssign) and isinstance(first.value, (ast.List, ast.Tuple)) and first.value.elts and tail_only and not inserts:
+                seq = first.value
+        if isinstance(seq, (ast.List, ast.Tuple)) and seq.elts and not isinstance(seq.elts[0], ast.Starred):
+            return _head_of(fi, seq.elts[0], depth - 1)
+    return x
+
+
+def make_slash_headed(fi):
+    def hook(x: ast.AST):
+        """Scheme pass: a string whose first characters are a literal starting with "/" is a path on this host as far
+        as the scheme is concerned (whether it is protocol-relative is the other pass's business)."""
+        if isinstance(x, (ast.BinOp, ast.JoinedStr, ast.Call)):
+            h = _head_of(fi, x)
+            if h is not x and isinstance(h, ast.Constant) and isinstance(h.value, str) and h.value.startswith("/"):
+                return False
+        return None
+
+    return hook
 
 
 def _leading_slash_cleaner(n, kind, tainted):
@@ -122,7 +159,7 @@ def check_no_scheme(ck, fi):
     (``GET http://other.example/x/``) whose path does not start with "/": their redirect target must be
     anchored to this host by a literal leading "/" (or the path must be known to start with "/")."""
     sites = _redirect_sites(fi)
-    hs = HelperSummaries(ck.repo, fi, lambda h: _leading_slash_cleaner, (), _slash_headed, self_classes=("RequestHandler",))
+    hs = HelperSummaries(ck.repo, fi, lambda h: _leading_slash_cleaner, (), make_slash_headed(fi), self_classes=("RequestHandler",))
     states = flow_taint(fi, PATH_SOURCES, clean_on_edge=hs.cleaner(_leading_slash_cleaner), expr_hook=hs.expr_hook, on_node=hs.on_node)
     for node, c in sites:
         target = q.arg(c, 0, "url")
